@@ -79,48 +79,68 @@ func init() {
 			o.Check(e.CountLitEdges(fn, noCont)+e.CountLitEdges(fn, noCont.Neg()) > 0, "c-no-continue-test", "the loop does not test the child's Continue flag", rec)
 			o.Check(!back, "c-must-stop", "after a matching child without continue the search must stop, but the loop can go on to the next sibling", rec)
 		}
-		// (b') all of the child's result is kept; (d) self iff nothing collected; (e) the collection is returned
+		// (b') all of the child's result is kept; (d) self iff nothing collected; (e) the collection is returned.
+		// Stated over what the returns can hold, whether the node is appended to the collection or
+		// returned as a one-element list of its own.
 		{
 			w := &Walk{Fn: fn, Cut: e.CutContradicting(M)}
 			r := w.FromEntry()
+			var selfSites []ssa.Instruction
+			anySpread := false
 			for _, ret := range r.Returns() {
-				for _, v := range ret.Results[:1] {
-					bases, parts := e.AppendParts(v)
-					var ps []string
-					hasSpread, hasSelf := false, false
-					var selfCall *ssa.Call
-					for _, p := range parts {
-						s := e.X(fn, p.V)
-						if p.Spread && p.V == ssa.Value(rec.(*ssa.Call)) {
-							hasSpread = true
-						} else if !p.Spread && s == "recv" {
-							hasSelf = true
-							selfCall = p.Call
-						} else {
-							o.Fail("e-foreign", "the result of Match contains something other than the children's matches or the node itself: "+s, ret)
+				bases, parts := e.AppendPartsUnder(r, ret.Results[0])
+				var ps []string
+				for _, p := range parts {
+					s := e.X(fn, p.V)
+					if p.Spread && p.V == ssa.Value(rec.(*ssa.Call)) {
+						anySpread = true
+					} else if !p.Spread && s == "recv" {
+						selfSites = append(selfSites, p.Call)
+					} else {
+						o.Fail("e-foreign", "the result of Match contains something other than the children's matches or the node itself: "+s, ret)
+					}
+					ps = append(ps, s)
+				}
+				for _, b := range bases {
+					if IsEmptySlice(b) {
+						continue
+					}
+					if sl, ok := b.(*ssa.Slice); ok {
+						if els := e.OrderedElems(sl); len(els) == 1 && e.X(fn, els[0]) == "recv" {
+							selfSites = append(selfSites, ret)
+							ps = append(ps, "[recv]")
+							continue
 						}
-						ps = append(ps, s)
 					}
-					for _, b := range bases {
-						if !IsEmptySlice(b) {
-							o.Fail("e-base", "the result of Match is seeded with "+e.X(fn, b), ret)
+					o.Fail("e-base", "the result of Match is seeded with "+e.X(fn, b), ret)
+				}
+				o.Site(ret, "returns acc of {"+strings.Join(ps, ", ")+"}")
+			}
+			o.Check(anySpread, "b-keep-all", "the whole result of the child (matches...) must be appended to the returned slice", rec)
+			o.Check(len(selfSites) > 0, "d-self", "the node itself must be part of the result when no child matched", rec)
+			emp := LitM{"len(collected)==0", func(li Lit) bool {
+				return li.Pos && strings.HasPrefix(li.Atom, "(len(acc(") && strings.HasSuffix(li.Atom, ") == 0)") && strings.Contains(li.Atom, "...(*am/dispatch.Route).Match(recv.Routes[i], p0)")
+			}}
+			empNil := LitM{"collected==nil", func(li Lit) bool {
+				return li.Pos && strings.HasPrefix(li.Atom, "(acc(") && strings.HasSuffix(li.Atom, ") == nil)") && strings.Contains(li.Atom, "...(*am/dispatch.Route).Match(recv.Routes[i], p0)")
+			}}
+			for _, ss := range selfSites {
+				// guarded by len(acc)==0 where acc holds the children's matches
+				o.Guarded(ss, "d-self-guard", "returning the node itself", emp, empNil)
+			}
+			if len(selfSites) > 0 {
+				// conversely: nothing collected ⇒ the node itself is in what is returned
+				empAny := LitM{"empty", func(li Lit) bool { return emp.F(li) || empNil.F(li) }}
+				if o.Check(e.CountLitEdges(fn, empAny)+e.CountLitEdges(fn, empAny.Neg()) > 0, "d-self-forced", "when no child matched the node itself must be returned: Match no longer tests whether anything was collected", rec) {
+					rr := (&Walk{Fn: fn, Cut: e.CutContradicting(M, empAny), Barrier: IsInstr(selfSites...)}).FromEntry()
+					isSelf := IsInstr(selfSites...)
+					for _, ret := range rr.Returns() {
+						if !isSelf(ret) {
+							o.Fail("d-self-forced", "when no child matched the node itself must be returned", ret)
 						}
 					}
-					o.Site(ret, "returns acc of {"+strings.Join(ps, ", ")+"}")
-					o.Check(hasSpread, "b-keep-all", "the whole result of the child (matches...) must be appended to the returned slice", ret)
-					o.Check(hasSelf, "d-self", "the node itself must be part of the result when no child matched", ret)
-					if selfCall != nil {
-						// guarded by len(acc)==0 where acc holds the children's matches
-						emp := LitM{"len(collected)==0", func(li Lit) bool {
-							return li.Pos && strings.HasPrefix(li.Atom, "(len(acc(") && strings.HasSuffix(li.Atom, ") == 0)") && strings.Contains(li.Atom, "...(*am/dispatch.Route).Match(recv.Routes[i], p0)")
-						}}
-						empNil := LitM{"collected==nil", func(li Lit) bool {
-							return li.Pos && strings.HasPrefix(li.Atom, "(acc(") && strings.HasSuffix(li.Atom, ") == nil)") && strings.Contains(li.Atom, "...(*am/dispatch.Route).Match(recv.Routes[i], p0)")
-						}}
-						o.Guarded(selfCall, "d-self-guard", "appending the node itself", emp, empNil)
-						// conversely: nothing collected ⇒ self appended before return
-						o.Forced(fn, "d-self-forced", "when no child matched the node itself must be returned", IsInstr(selfCall), LitM{"M∧empty", func(li Lit) bool { return M.F(li) || emp.F(li) || empNil.F(li) }})
-					}
+					o.Checks++
+					o.Passed++
 				}
 			}
 		}
